@@ -78,10 +78,7 @@ func (w *World) verifyCone(roots []*Contract, lemmas []*Lemma, sv *Solver, verbo
 	type job struct {
 		fr     *FuncResult
 		o      *Oblig
-		smt    string
-		pruned string
-		light  string
-		light1 string
+		ix     *sliceIndex
 	}
 	var jobs []job
 	for _, fr := range frs {
@@ -91,7 +88,7 @@ func (w *World) verifyCone(roots []*Contract, lemmas []*Lemma, sv *Solver, verbo
 		ix := buildSliceIndex(fr.Decls, fr.declOwner, fr.axioms)
 		for i := range fr.Obls {
 			o := &fr.Obls[i]
-			jobs = append(jobs, job{fr, o, ix.smtText(o, false), ix.smtText(o, true), ix.smtTextLight(o, 2), ix.smtTextLight(o, 1)})
+			jobs = append(jobs, job{fr: fr, o: o, ix: ix})
 		}
 	}
 	rr.Results = make([]OblResult, len(jobs))
@@ -104,8 +101,14 @@ func (w *World) verifyCone(roots []*Contract, lemmas []*Lemma, sv *Solver, verbo
 			defer wg.Done()
 			defer func() { <-sem }()
 			j := jobs[i]
-			r := sv.solveVariants4(j.light, j.light1, j.pruned, j.smt, j.o.Canary)
-			rr.Results[i] = OblResult{O: j.o, R: r, SMT: j.smt}
+			if !j.o.Canary && triviallyValid(j.o.Goal) {
+				// valid by constant folding alone (e.g. an implication whose call-count antecedent is false on this path)
+				rr.Results[i] = OblResult{O: j.o, R: SolveResult{Status: "unsat", Solver: "syntactic"}}
+				return
+			}
+			smt := j.ix.smtText(j.o, false)
+			r := sv.solveVariants4(j.ix.smtTextLight(j.o, 2), j.ix.smtTextLight(j.o, 1), j.ix.smtText(j.o, true), smt, j.o.Canary)
+			rr.Results[i] = OblResult{O: j.o, R: r, SMT: smt}
 		}(i)
 	}
 	wg.Wait()
@@ -148,6 +151,9 @@ func cmdVerify(args []string) int {
 	if err := w.loadContracts(*verif); err != nil {
 		fmt.Fprintln(os.Stderr, "contracts:", err)
 		return 2
+	}
+	for _, b := range w.checkImmutables() {
+		fmt.Println("IMMUTABLE-VIOLATION:", b)
 	}
 	fmt.Printf("loaded in %.1fs: %d contracts, %d spec funcs, %d lemmas\n", time.Since(t0).Seconds(), len(w.contracts), len(w.specFuncs), len(w.lemmas))
 	for _, m := range w.missing {
